@@ -1,7 +1,8 @@
 (* C01 - multiplexing is transparent.  Statements only.
    plain_pipe P xs = Some ys : the pipeline P of dual-mode operators (map, starmap, filter, flat_map,
-     scan and everything defined through it without terminator: count, sum, mean, min, max, variance,
-     stddev, to_list; first, last, take, assert_, identity, clip, fill_none, do_action), run on a PLAIN
+     scan with or without terminator and everything defined through it: count, sum, mean, min, max,
+     variance, stddev, to_list, batch, distinct_until_changed; first, last, take, assert_, assert_1,
+     identity, clip, fill_none, do_action), run on a PLAIN
      observable emitting xs, emits ys and completes (Mux/Plain.v; tied to the real RxPY run by the
      correspondence check).  None = the plain run ends with on_error (a raising function, first/last
      on an empty group, a failing assert): excluded by the property.
